@@ -620,7 +620,7 @@ def run(ctx):
         self_check(ctx, g)
         ctx.sample({'traced_definition': 'enc_0_0_0', 'coq': __import__('tracer.shim').shim.coq(g.by_name['enc_0_0_0'][1])[:300]})
     correspondence_layout(ctx)
-    run_oracles(ctx, 60 if ctx.thorough else 14, 6 if ctx.thorough else 2)
+    run_oracles(ctx, 250 if ctx.thorough else 14, 20 if ctx.thorough else 2)
     ctx.extra['oracle_tolerances'] = {'roundtrip': RT_TOL, 'reference': REF_TOL}
 
 
